@@ -23,26 +23,24 @@ Open Scope Z_scope.
 Inductive pget :=
 | PErr                                     (* (nil, -1, err) *)
 | PMiss                                    (* (nil, -1, nil) *)
-| PFound (size delivered : Z) (serr : bool)(* (rc, size, nil): rc yields [delivered] bytes, then EOF or (serr) an error *)
-| PPanic (site : string).                  (* nil dereference: the call does not return *)
+| PFound (size delivered : Z) (serr : bool). (* (rc, size, nil): rc yields [delivered] bytes, then EOF or (serr) an error *)
 
 (* Proxy.Contains: (bool, size) *)
-Inductive phas := HasNo | HasYes (size : Z) | HasPanic (site : string).
+Inductive phas := HasNo | HasYes (size : Z).
 
 (* the object as the backend holds it: length of the stored representation and the logical size its
    casblob header states (compressed CAS; = length for raw representations) *)
 Record pobj := mkObj { o_full : Z; o_logical : Z }.
 
-Definition to_bget (ob : pobj) (o : pget) : option bget :=
+Definition to_bget (ob : pobj) (o : pget) : bget :=
   match o with
-  | PErr => Some BErr
-  | PMiss => Some BMiss
-  | PFound s d e => Some (BFound s (o_full ob) d e 1 (o_logical ob))
-  | PPanic _ => None
+  | PErr => BErr
+  | PMiss => BMiss
+  | PFound s d e => BFound s (o_full ob) d e 1 (o_logical ob)
   end.
 
-Definition to_bhas (h : phas) : option bhas :=
-  match h with HasNo => Some BHasNo | HasYes s => Some (BHasYes s) | HasPanic _ => None end.
+Definition to_bhas (h : phas) : bhas :=
+  match h with HasNo => BHasNo | HasYes s => BHasYes s end.
 
 (* ------------------------------------------------------------------ *)
 (* httpproxy *)
@@ -162,7 +160,7 @@ Record rdreply := mkRd {                                          (* ByteStream.
   rd_end_err : bool }.          (* then an error status (true) or io.EOF (false) *)
 Record gscript := mkG { g_ac : acreply; g_fb : fbreply; g_fm : fmreply; g_rd : rdreply }.
 
-Inductive fdres := FDErr | FDDigest (d : option Z).
+Inductive fdres := FDErr | FDDigest (size : Z).
 
 (* remoteGrpcProxyCache.fetchBlobDigest; hex_ok: hex.DecodeString(hash) succeeds *)
 Definition fetch_digest (hex_ok : bool) (fb : fbreply) : fdres :=
@@ -171,11 +169,12 @@ Definition fetch_digest (hex_ok : bool) (fb : fbreply) : fdres :=
   | FBErr _ => FDErr
   | FBResp st d =>
       if st =? code_NotFound then FDErr else
-      if negb (st =? code_OK) then FDErr else FDDigest d
+      if negb (st =? code_OK) then FDErr else
+      match d with
+      | None => FDErr              (* "FetchBlob response without a blob digest" *)
+      | Some s => FDDigest s
+      end
   end.
-
-Definition site_get : string := "grpcproxy.Get: digest.SizeBytes of a nil BlobDigest".
-Definition site_contains : string := "grpcproxy.Contains: digest.SizeBytes of a nil BlobDigest".
 
 Definition sum_chunks (l : list Z) : Z := sumZ (fun x => x) l.
 
@@ -188,8 +187,7 @@ Definition grpc_get (k : kind) (hex_ok : bool) (size : Z) (g : gscript) : pget :
       if size <? 0 then
         match fetch_digest hex_ok (g_fb g) with
         | FDErr => PErr
-        | FDDigest None => PPanic site_get
-        | FDDigest (Some s) => rd s
+        | FDDigest s => rd s
         end
       else rd size
   | _ =>
@@ -206,8 +204,7 @@ Definition grpc_contains (k : kind) (hex_ok : bool) (size : Z) (g : gscript) : p
       if size <? 0 then
         match fetch_digest hex_ok (g_fb g) with
         | FDErr => HasNo
-        | FDDigest None => HasPanic site_contains
-        | FDDigest (Some s) => HasYes s
+        | FDDigest s => HasYes s
         end
       else match g_fm g with
            | FMErr => HasNo
@@ -216,7 +213,6 @@ Definition grpc_contains (k : kind) (hex_ok : bool) (size : Z) (g : gscript) : p
   | _ =>
       match grpc_get k hex_ok size g with
       | PFound n _ _ => if n <? 0 then HasNo else HasYes n
-      | PPanic s => HasPanic s
       | _ => HasNo
       end
   end.
@@ -394,14 +390,14 @@ Definition qrun (c : qcfg) (evs : list qev) : qstate := fold_left (qstep c) evs 
 
 (* observed result of Proxy.Get, the returned reader drained *)
 Inductive pobs := OErr | OMiss | OFound (size delivered : Z) (serr : bool) | OPanic.
-(* observed result of disk.Cache.Get with the real proxy attached, fresh cache *)
+(* observed result of disk.Cache.Get with the real proxy attached, fresh cache (a panic is an
+   observation no model value matches) *)
 Inductive dobs := DHit (size : Z) | DMiss | DErr | DPanic | DSkip.
 
 Definition pobs_ok (m : pget) (o : pobs) : bool :=
   match m, o with
   | PErr, OErr => true
   | PMiss, OMiss => true
-  | PPanic _, OPanic => true
   | PFound s d e, OFound s' d' e' =>
       (s =? s') && Bool.eqb e e' && (if e then (0 <=? d') && (d' <=? d) else d =? d')
   | _, _ => false
@@ -411,15 +407,12 @@ Definition dummy_hash : string := "aaaaaaaaaaaaaaaaaaaaaaaaaaaaaaaaaaaaaaaaaaaaa
 Definition case_cache_max : Z := 67108864.
 
 Definition disk_expect (v2 : bool) (maxproxy : Z) (k : kind) (sz : Z) (ob : pobj) (o : pget) : dobs :=
-  match to_bget ob o with
-  | None => DPanic
-  | Some b =>
-      match snd (exec (mkCfg v2 1099511627776 maxproxy true) (dinit case_cache_max 0) (RGet k dummy_hash sz 0 false b "r")) with
-      | Some (GetHit s _ _) => DHit s
-      | Some GetMiss => DMiss
-      | Some (GetErr _) => DErr
-      | _ => DSkip
-      end
+  match snd (exec (mkCfg v2 1099511627776 maxproxy true) (dinit case_cache_max 0)
+                  (RGet k dummy_hash sz 0 false (to_bget ob o) "r")) with
+  | Some (GetHit s _ _) => DHit s
+  | Some GetMiss => DMiss
+  | Some (GetErr _) => DErr
+  | _ => DSkip
   end.
 
 Definition dobs_ok (m o : dobs) : bool :=
@@ -428,7 +421,6 @@ Definition dobs_ok (m o : dobs) : bool :=
   | DHit a, DHit b => a =? b
   | DMiss, DMiss => true
   | DErr, DErr => true
-  | DPanic, DPanic => true
   | _, _ => false
   end.
 
@@ -442,11 +434,13 @@ Definition disk_has_expect (maxproxy sz : Z) (h : phas) : phas :=
   | x => x
   end.
 
-Definition phas_eqb (a b : phas) : bool :=
-  match a, b with
-  | HasNo, HasNo => true
-  | HasYes x, HasYes y => x =? y
-  | HasPanic _, HasPanic _ => true
+(* observed result of Contains (of the proxy, of disk.Cache): a panic is an observation no model
+   value matches *)
+Inductive hobs := ObsNo | ObsYes (size : Z) | ObsPanic.
+Definition hobs_ok (m : phas) (o : hobs) : bool :=
+  match m, o with
+  | HasNo, ObsNo => true
+  | HasYes x, ObsYes y => x =? y
   | _, _ => false
   end.
 
@@ -466,8 +460,8 @@ Inductive pcase :=
 | CHttpGet (v2 : bool) (k : kind) (sz : Z) (src : hsrc) (ob : pobj) (maxproxy : Z) (po : pobs) (d : dobs)
 | CGrpcGet (v2 : bool) (k : kind) (hex_ok : bool) (sz : Z) (g : gscript) (ob : pobj) (maxproxy : Z) (po : pobs) (d : dobs)
 (* Contains: observed (exists, size) of the proxy and of disk.Cache.Contains *)
-| CHttpHas (v2 : bool) (k : kind) (sz : Z) (src : hsrc) (maxproxy : Z) (po dk : phas)
-| CGrpcHas (v2 : bool) (k : kind) (hex_ok : bool) (sz : Z) (g : gscript) (maxproxy : Z) (po dk : phas)
+| CHttpHas (v2 : bool) (k : kind) (sz : Z) (src : hsrc) (maxproxy : Z) (po dk : hobs)
+| CGrpcHas (v2 : bool) (k : kind) (hex_ok : bool) (sz : Z) (g : gscript) (maxproxy : Z) (po dk : hobs)
 (* UploadFile CAS over gRPC: mode, LogicalSize, SizeOnDisk, length of the file, index of the failing Send;
    observed: (has resource name, len(Data)) and proto.Size of every WriteRequest received, length of
    the resource name, number of Close calls on the reader *)
@@ -496,10 +490,10 @@ Definition proxy_case_ok (c : pcase) : bool :=
       pobs_ok m po && dobs_ok (disk_expect v2 mp k sz ob m) d
   | CHttpHas v2 k sz src mp po dk =>
       let m := http_contains (is_v2cas v2 k) (hview src) in
-      phas_eqb m po && phas_eqb (disk_has_expect mp sz m) dk
+      hobs_ok m po && hobs_ok (disk_has_expect mp sz m) dk
   | CGrpcHas v2 k hex sz g mp po dk =>
       let m := grpc_contains k hex sz g in
-      phas_eqb m po && phas_eqb (disk_has_expect mp sz m) dk
+      hobs_ok m po && hobs_ok (disk_has_expect mp sz m) dk
   | CGrpcUp v2 logical sod flen open_err fail_at msgs sizes rnlen closes =>
       let tr := grpc_upload_cas open_err fail_at (file_reads flen (buf_size sod ProxySrc.maxChunkSize)) in
       pair_list_eqb (sends_of tr) msgs &&
